@@ -184,6 +184,17 @@ def _planted_try(rng, kind, n, dims, p, P_rank):
         return Planted(kind=kind, c=c, G=G, h=h, A=A, b=b, dims=dims, n=n, p=p, N=N, P=None, wit=w)
     raise ValueError(kind)
 
+def rankdef_conelp(rng, first=False):
+    """an unbounded epigraph LP  min t  s.t.  -a*y <= b,  y_k + w - t <= 0  whose columns for w and t are collinear, so Rank([G;A]) < n:
+    conelp's rank assumption fails silently (no ArithmeticError) and its least-squares starting point has zero gap but dres = 1."""
+    m = rng.randint(1, 3); a = float(rng.randint(1, 5)); b = float(rng.randint(1, 3))
+    if first: m, a, b = 2, 4.0, 1.0       # the instance op.solve produced when this was found
+    G = [[-a if i == j else 0.0 for i in range(m)] + [1.0 if i == j else 0.0 for i in range(m)] for j in range(m)]
+    G.append([0.0] * m + [1.0] * m); G.append([0.0] * m + [-1.0] * m)
+    n = m + 2
+    return Planted(kind='rankdef', c=[0.0] * (n - 1) + [1.0], G=G, h=[b] * m + [0.0] * m, A=[[] for _ in range(n)], b=[], dims={'l': 2 * m, 'q': [], 's': []},
+                   n=n, p=0, N=2 * m, P=None, wit={})
+
 def rank_of(rows):
     """rank of a list of rows (exact enough: small integers)"""
     from fractions import Fraction
